@@ -10,6 +10,7 @@ import pandas as pd
 from tqdm import tqdm
 
 from ..model import Model, Node, Var
+from .. import _verif
 from .interface import LieselInterface
 from .types import Array, KeyArray, ModelState, Position
 
@@ -488,6 +489,14 @@ def optim_flat(
     def body_fun(val: dict):
         _, subkey = jax.random.split(val["key"])
         batches = _generate_batch_indices(key=subkey, n=n_train, batch_size=batch_size)
+
+        if _verif.enabled():
+            jax.debug.callback(
+                lambda i, k, b: _verif.emit("optim_batches", while_i=i, subkey=k, batches=b),
+                val["while_i"],
+                subkey,
+                batches,
+            )
 
         # -----------------------------------------------------------------------------
         # Loop over batches
